@@ -21,12 +21,25 @@ reactor is not restartable).  Producers keep issuing across the restart and
 further producers start once the later run has started; every call, whichever
 run it was issued in, is judged by the same clauses.
 
+Two families about what "a reactor that runs" includes.  (3) Asynchronous shutdown: in three runs of five, one or two
+"before shutdown" triggers return a Deferred (what a service does whose stopService() hands its clean-up to a thread);
+after stop() the reactor keeps running until those fire, and each trigger's own thread issues 0..4 further calls and
+then the call that fires its Deferred.  Those calls are judged by the same clauses as every other call - the reactor is
+running, whatever flags stop() has set.  (4) Unrelated descriptors dying: in half of the runs one or two application
+readers (idle listening sockets) have their fd closed behind the reactor's back - from another thread or from a call in
+the reactor thread; fileno() answers -1 afterwards or keeps answering the stale number - while producers are issuing.
+Every reactor is built to survive that (select probes its descriptors after EBADF / ValueError and drops the bad one,
+poll gets POLLNVAL, epoll and the selector lose the fd silently); the calls issued afterwards are judged as before.
+
 Promptness is stated without timing: while an issued call is un-run, the
 simulator must never have to advance simulated time (i.e. the reactor must not
 be asleep in its poller with nothing ready and nobody else runnable); with an
 infinite poll timeout that state is a deadlock (lost wake-up).
 """
-from twisted.internet import protocol
+from zope.interface import implementer
+
+from twisted.internet import defer, protocol
+from twisted.internet.interfaces import IReadDescriptor
 
 from detsim import kernel as K, reactors as R, threads as T
 
@@ -42,18 +55,52 @@ COMPONENTS = {"real": ["twisted.internet.base.ReactorBase.callFromThread/runUnti
 RULE = ("run = one tape-chosen reactor running its real main loop, 1..6 producer threads each issuing 1..12 callFromThread calls (some calls re-issue callFromThread from the reactor thread; in half of the runs a fifth of the calls raise after doing their work; "
         "in half of the runs three calls of ten pass some or all of their arguments as keyword arguments), far-future timers and a listening socket present; "
         "in 4 runs of 10 the reactor is crash()ed once or twice - from a thread call, a callWhenRunning hook, a timed call or the I/O callback of an inbound connection, with or without "
-        "a short unrelated timer armed - and run() again on the same thread, 1..2 more producers of 1..6 calls starting once that later run has started while the earlier ones carry on; interleaving chosen at poller boundaries and at lines of the reactor source with probability p in {0, .05, .2} under a uniform scheduler, or under a PCT (priority) scheduler with few long-lasting pre-emptions; "
+        "a short unrelated timer armed - and run() again on the same thread, 1..2 more producers of 1..6 calls starting once that later run has started while the earlier ones carry on; "
+        "in 3 runs of 5 the final stop() is asynchronous: 1..2 'before shutdown' triggers return a Deferred, each completed by the last of 1..5 callFromThread calls of the trigger's own thread, issued while the stopped-but-running reactor idles; "
+        "in half of the runs 1..2 unrelated application readers have their fd closed behind the reactor's back (fileno() -1 or stale; from a thread or from the reactor thread) while producers are issuing; interleaving chosen at poller boundaries and at lines of the reactor source with probability p in {0, .05, .2} under a uniform scheduler, or under a PCT (priority) scheduler with few long-lasting pre-emptions; "
         "non-trivial = >= 2 producers and the reactor actually blocked in its poller at least once while producers were still running, or a line-level pre-emption fired")
 ASSUMPTIONS = ["the reactor's clock is strictly increasing between two readings (monotonic clock with sub-call resolution)", "CPython list.append / slice deletion are atomic between trace 'line' events (the GIL guarantee the code relies on)",
                "quantifier's 10^4-call figure is not reached: <= 72 calls per run, + <= 24 in runs with restarts (depth is bounded by baton hand-over cost, not soundness)",
                "restart family: a call issued by a still-running producer between crash() and the next run() is expected to run (once, in order) in that next run - the unchanged reactors queue it; "
                "nothing is demanded of its latency until the reactor sleeps in its poller again",
+               "asynchronous shutdown: only calls issued before the call that completes the last outstanding 'before shutdown' Deferred are judged (all of them are: each trigger thread's completing call is its last); "
+               "nothing is demanded of calls issued once the 'during shutdown' phase has begun",
+               "an fd closed by another thread while the reactor sleeps in its poller makes the fake poller return (a real kernel may sleep on); either way the bad descriptor is reported at the poller's next entry",
+               "nothing is demanded about the dead descriptor itself (whether / when it gets connectionLost is not part of C13)",
                "short timers are 0..5e-6 s (0..50 clock readings): the poll reactor truncates timeouts to whole milliseconds and busy-polls the remainder one clock reading at a time"]
 RUN_WALL_LIMIT_S = 60
 # short timer delays, in units of the simulated clock's resolution (1e-7 s per reading): the poll reactor truncates its timeout to whole
 # milliseconds and busy-polls for the rest, one clock reading at a time, so longer delays only buy thousands of empty iterations
 DELAYS = (0, 1e-6, 5e-6)
 CRASH_FROM = ("thread", "hook", "timer", "io")   # where reactor.crash() is called from: a thread call, a callWhenRunning hook, a timed call, an I/O callback
+# how an application descriptor's fd dies behind the reactor's back: not at all / closed, fileno() says -1 from then on (Python sockets) /
+# closed, fileno() keeps giving the number it cached (objects wrapping an OS-level fd) - and from where: another thread, or a call in the reactor thread
+BAD_FD = ("closed", "stale")
+BAD_FD_FROM = ("thread", "reactor")
+
+
+@implementer(IReadDescriptor)
+class AppReader:
+    """An unrelated application descriptor watched for input by the reactor: a listening socket nobody connects to."""
+
+    def __init__(self, sim, sock, name):
+        self.sim, self.sock, self.name = sim, sock, name
+        self.fd = sock.fileno()
+        self.stale = False
+        self.lost = 0
+
+    def fileno(self):
+        return self.fd if self.stale else self.sock.fileno()
+
+    def doRead(self):
+        self.sim.probe("app_reader_doRead")
+
+    def connectionLost(self, reason):
+        self.lost += 1
+        self.sim.probe("app_reader_connection_lost")
+
+    def logPrefix(self):
+        return "app-" + self.name
 
 
 def run(sim):
@@ -69,8 +116,12 @@ def run(sim):
     ncrash = sim.draw_weighted([(0, 6), (1, 3), (2, 1)], "restarts")   # the reactor is crash()ed and run() again this many times
     plan = [sim.draw_choice(CRASH_FROM, "crash_from") for _ in range(ncrash)]
     near_p = sim.draw_choice([0.0, 0.5], "near_timer_p")            # an unrelated short timer is armed before a run() with this probability
+    # asynchronous shutdown: this many "before shutdown" triggers return a Deferred that a thread of theirs completes with its last callFromThread
+    nasync = sim.draw_weighted([(0, 2), (1, 2), (2, 1)], "async_shutdown_triggers")
+    # unrelated application descriptors whose fd dies behind the reactor's back while producers are issuing
+    bad_fds = [(sim.draw_choice(BAD_FD, "bad_fd"), sim.draw_choice(BAD_FD_FROM, "bad_fd_from")) for _ in range(sim.draw_weighted([(0, 3), (1, 2), (2, 1)], "bad_fds"))]
     sim.config = {"reactor": kind, "producers": nprod, "preempt_p": preempt, "far_timer": with_timer, "policy": policy, "raising_calls": raising,
-                  "keyword_calls_p": kw_p, "restarts": plan, "near_timer_p": near_p}
+                  "keyword_calls_p": kw_p, "restarts": plan, "near_timer_p": near_p, "async_shutdown_triggers": nasync, "bad_fds": ["%s-from-%s" % b for b in bad_fds]}
     now = [0.0]
     kern = K.Kernel(sim)
     kern.permute_ready = False
@@ -82,6 +133,7 @@ def run(sim):
     ran_thread = []
     st = {"asleep": None, "producers_done": False, "blocked_while_producing": 0, "reactor_thread": None, "stopping": False,
           "started": 0, "crashes": 0, "restart": False}
+    shut = {"begun": [False] * nasync, "d": [None] * nasync}
 
     def idle(timeout, scan):
         # called on the reactor thread when its poller found nothing ready
@@ -90,7 +142,17 @@ def run(sim):
         if not st["producers_done"]:
             st["blocked_while_producing"] += 1
             sim.probe("reactor_blocked_in_poller")
-        sched.block_until(lambda: scan() or (deadline is not None and now[0] >= deadline), "poll")
+        if st["stopping"] and any(shut["begun"]) and not all(d is not None and d.called for d in shut["d"]):
+            sim.probe("reactor_blocked_during_async_shutdown")
+
+        def ready():
+            try:
+                return scan()
+            except (OSError, ValueError):
+                # a watched fd was closed while the reactor slept: let the call return; its next entry reports the bad descriptor
+                return True
+
+        sched.block_until(lambda: ready() or (deadline is not None and now[0] >= deadline), "poll")
         st["asleep"] = None
 
     kern.idle = idle
@@ -102,7 +164,7 @@ def run(sim):
         if a is None or a[0] is None:
             return False
         pending = len(issued) - len(ran)
-        sim.check("prompt-no-sleep-while-call-pending", pending == 0 or st["stopping"], kind,
+        sim.check("prompt-no-sleep-while-call-pending", pending == 0, kind,
                   lambda: "reactor asleep in its poller (finite timeout) with %d issued call(s) not run and no other runnable thread: lost wake-up" % pending)
         now[0] = a[0]
         sim.probe("clock_advanced_while_idle")
@@ -120,7 +182,7 @@ def run(sim):
                 now[0] += 1e-7
                 return now[0]
 
-            r = R.make_reactor(kind, kern, clock_read)
+            r = R.make_reactor(kind, kern, clock_read, fake_select_module=True)
 
             def do_crash(how):
                 # always runs on the reactor thread, inside run(): crash() + run() is the supported way to restart a reactor
@@ -141,24 +203,51 @@ def run(sim):
             if with_timer:
                 r.callLater(1000.0, lambda: None)                              # an unrelated, far timer
 
-            def issue(name, k, again, boom):
+            # unrelated application descriptors, idle for ever; some have their fd closed behind the reactor's back later on
+            apps = []
+            for i in range(len(bad_fds)):
+                ls = kern.socket()
+                ls.bind(("127.0.0.1", 0))
+                ls.listen(5)
+                apps.append(AppReader(sim, ls, str(i)))
+                r.addReader(apps[-1])
+
+            def before_shutdown(i):
+                # what a service does whose stopService() hands its clean-up to a thread (deferToThread): the reactor keeps running until the
+                # returned Deferred fires - from that thread's last callFromThread
+                shut["d"][i] = defer.Deferred()
+                shut["begun"][i] = True
+                sim.event("shutdown-begun", i)
+                sim.probe("before_shutdown_trigger_waiting")
+                return shut["d"][i]
+
+            for i in range(nasync):
+                r.addSystemEventTrigger("before", "shutdown", before_shutdown, i)
+
+            def issue(name, k, again, boom, fire=None):
                 """One callFromThread call; callFromThread(f, *args, **kwargs) accepts keyword arguments as well."""
                 style = sim.draw_weighted([("positional", 2), ("keyword", 2), ("all-keyword", 1)], "call_style") if kw_p and sim.draw_bool(kw_p, "keyword_call") else "positional"
                 issued.append((name, k))
                 if st["started"] > 1:
                     sim.probe("call_issued_in_a_later_run")
+                if st["stopping"]:
+                    sim.probe("call_issued_during_async_shutdown")
                 if style == "positional":
-                    r.callFromThread(record, name, k, again, boom)
+                    r.callFromThread(record, name, k, again, boom, fire)
                 elif style == "keyword":
                     sim.probe("call_with_keyword_arguments")
-                    r.callFromThread(record, name, k, boom=boom, again=again)
+                    r.callFromThread(record, name, k, boom=boom, fire=fire, again=again)
                 else:
                     sim.probe("call_with_keyword_arguments")
-                    r.callFromThread(record, again=again, k=k, p=name, boom=boom)
+                    r.callFromThread(record, again=again, k=k, fire=fire, p=name, boom=boom)
 
-            def record(p, k, again=False, boom=False):
+            def record(p, k, again=False, boom=False, fire=None):
                 ran.append((p, k))
                 ran_thread.append(sched.me())
+                if fire is not None:
+                    # the clean-up thread's last call: its "before shutdown" trigger is complete
+                    sim.event("shutdown-complete", fire)
+                    shut["d"][fire].callback(None)
                 if again:
                     # a call issued from the reactor thread itself
                     issue("r" + p, k, False, False)
@@ -218,6 +307,34 @@ def run(sim):
                     sched.point("syn-sent")
                     kern.fire("connect", c)
 
+            def closer(i, mode, where):
+                # an application bug the reactors are built to survive: the fd of a descriptor the reactor still watches is closed
+                sched.block_until(lambda: st["started"] > 0, "run-started")
+                for _ in range(sim.draw_int(0, 6, "close_pause")):
+                    sched.point("closer-pause")
+                a = apps[i]
+
+                def close():
+                    sim.fault("fd_closed_behind_reactor_" + mode)
+                    sim.event("fd-closed", i, mode, where)
+                    a.stale = mode == "stale"
+                    a.sock.close()
+
+                if where == "thread":
+                    close()
+                else:
+                    r.callFromThread(close)
+
+            def shutdown_worker(i, n):
+                # the clean-up thread of "before shutdown" trigger i: n calls, then the one that completes the trigger
+                sched.block_until(lambda: shut["begun"][i], "shutdown-begun")
+                for k in range(n + 1):
+                    for _ in range(sim.draw_int(0, 2, "pause")):
+                        sched.point("shutdown-worker-pause")
+                    boom = raising and k < n and sim.draw_bool(0.2, "raises")
+                    sim.event("issue", "s%d" % i, k)
+                    issue("s%d" % i, k, False, boom, i if k == n else None)
+
             rt = sched.spawn("reactor", reactor_main)
             prods = [sched.spawn("prod%d" % p, producer, p, sim.draw_int(1, 12, "ncalls"), 0) for p in range(nprod)]
             for g in range(ncrash):
@@ -225,6 +342,9 @@ def run(sim):
                     prods.append(sched.spawn("crasher%d" % g, crasher, g, plan[g]))
                 for _ in range(sim.draw_int(1, 2, "late_producers")):
                     prods.append(sched.spawn("prod%d" % len(prods), producer, len(prods), sim.draw_int(1, 6, "late_ncalls"), g + 1))
+
+            for i, (mode, where) in enumerate(bad_fds):
+                prods.append(sched.spawn("closer%d" % i, closer, i, mode, where))
 
             def lost(e):
                 pending = len(issued) - len(ran)
@@ -243,12 +363,17 @@ def run(sim):
                       lambda: "%d of %d issued calls ran within the step budget after the last producer finished" % (len(ran), len(issued)))
             # stop the reactor from a thread, as applications do
             st["stopping"] = True
+            for i in range(nasync):
+                sched.spawn("shutdown%d" % i, shutdown_worker, i, sim.draw_int(0, 4, "shutdown_ncalls"))
             stopper = sched.spawn("stopper", lambda: r.callFromThread(r.stop))
             with sim.guard("thread-raised", kind):
                 try:
                     sched.run(max_steps=50000, until=lambda: rt.state == "done")
                 except T.Deadlock as e:
-                    sim.fail("stop-not-delivered", kind, "reactor.stop issued with callFromThread never ran: %s" % e)
+                    if len(issued) > len(ran):
+                        lost(e)      # a call issued while the reactor was waiting for its "before shutdown" triggers
+                    else:
+                        sim.fail("stop-not-delivered", kind, "reactor.stop issued with callFromThread never ran: %s" % e)
             sim.check("reactor-stopped", rt.state == "done", kind, "reactor main loop did not finish after callFromThread(stop)")
         finally:
             sched.shutdown()
@@ -277,5 +402,7 @@ MUTANTS = [
     "asyncioreactor.callFromThread: calls with keyword arguments scheduled with callLater(1e-6) instead of 0 -> CAUGHT per-thread-order / prompt-no-sleep-while-call-pending (keyword-call family)",
     "base.crash() also empties threadCallQueue -> CAUGHT lost-wakeup-deadlock / prompt-no-sleep-while-call-pending (restart family: calls queued when the run was crashed never run in the next run)",
     "seeded C13-r4a (asyncio: positional-only calls bypass the timed-call route the keyword calls keep) -> CAUGHT per-thread-order:asyncio",
+    "base.wakeUp: no wake-up byte once stop() has been called (seeded C13-r5a) -> CAUGHT lost-wakeup-deadlock / prompt-no-sleep-while-call-pending on select/poll/epoll (asynchronous-shutdown family)",
+    "selectreactor._preenDescriptors: the reactor's internal readers are not probed and so fall out of _reads (seeded C13-r5b) -> CAUGHT lost-wakeup-deadlock / prompt-no-sleep-while-call-pending:select (dying-descriptor family)",
     "seeded C13-r4b (asyncio: crash() cancels the loop timer but keeps _scheduledAt; after crash from a hook / I/O callback with a due timer armed, the next run never runs thread calls) -> CAUGHT lost-wakeup-deadlock:asyncio",
 ]
